@@ -85,6 +85,30 @@ def uses_gc(leaf):
     return leaf != "N"
 
 
+REC = ("R0", "R1", "RW")
+
+
+def tyof(leaf, tname):
+    """the Rust type of a leaf; recursive leaves mention the type being derived"""
+    if leaf in ("R0", "R1"):
+        return f"Option<Gc<'gc, {tname}<'gc>>>"
+    if leaf == "RW":
+        return f"Option<GcWeak<'gc, {tname}<'gc>>>"
+    return TY[leaf]
+
+
+def ex(leaf, inner, e="e"):
+    """the expression that builds a leaf; `inner` builds a value of the type being derived whose recursive
+    fields are None and whose other pointers come from a throw-away expectation (they sit behind the Gc)"""
+    if leaf == "R0":
+        return "None"
+    if leaf == "R1":
+        return f"Some({e}.g(mc, {inner}))"
+    if leaf == "RW":
+        return f"Some({e}.gw(mc, {inner}))"
+    return EX[leaf].replace("e.", e + ".")
+
+
 def render(grid_path, out_path):
     shapes = [json.loads(l) for l in open(grid_path)]
     types, fns, calls = [], [], []
@@ -107,7 +131,8 @@ def render(grid_path, out_path):
                 types.append(f"#[derive(Collect)]\n#[collect(no_drop)]\npub struct {tname};")
                 body, ref = [f"let v = {tname};"], "&v"
             else:
-                ftys = [TY[f] for f in fields]
+                ftys = [tyof(f, tname) for f in fields]
+                rec = any(f in REC for f in fields)
                 generic = gen != "none"
                 decl_tys = list(ftys)
                 if generic:
@@ -124,11 +149,13 @@ def render(grid_path, out_path):
                     fl.append(f"{req}pub f{k}: {ty}" if style == "named" else f"{req}pub {ty}")
                 if style == "named":
                     types.append(f"#[derive(Collect)]\n{attr}\npub struct {tname}{params} {{ {', '.join(fl)} }}")
-                    init = ", ".join(f"f{k}: {EX[f]}" for k, f in enumerate(fields, 1))
-                    body = [f"let v = {tname} {{ {init} }};"]
+                    inner = tname + " { " + ", ".join(f"f{k}: {'None' if f in REC else ex(f, '', 'e2')}" for k, f in enumerate(fields, 1)) + " }"
+                    init = ", ".join(f"f{k}: {ex(f, inner)}" for k, f in enumerate(fields, 1))
+                    body = (["let mut e2 = Exp::default();"] if rec else []) + [f"let v = {tname} {{ {init} }};"]
                 else:
                     types.append(f"#[derive(Collect)]\n{attr}\npub struct {tname}{params}({', '.join(fl)});")
-                    body = [f"let v = {tname}({', '.join(EX[f] for f in fields)});"]
+                    inner = tname + "(" + ", ".join(("None" if f in REC else ex(f, "", "e2")) for f in fields) + ")"
+                    body = (["let mut e2 = Exp::default();"] if rec else []) + [f"let v = {tname}({', '.join(ex(f, inner) for f in fields)});"]
                 ref = "&v"
         elif sh["kind"] == "enum":
             a, b, c, active, rs = sh["a"], sh["b"], sh["c"], sh["active"], set(sh["rs"])
@@ -136,8 +163,10 @@ def render(grid_path, out_path):
             lifetime = any(uses_gc(x) for x in (a, b, c))
             params = "<'gc>" if lifetime else ""
             req = "#[collect(require_static)] " if 2 in rs else ""
-            types.append(f"#[derive(Collect)]\n#[collect(no_drop)]\npub enum {tname}{params} {{ Unit, Tup({TY[a]}), Named {{ x: {TY[b]}, {req}y: {TY[c]} }} }}")
-            val = {"Unit": f"{tname}::Unit", "Tup": f"{tname}::Tup({EX[a]})", "Named": f"{tname}::Named {{ x: {EX[b]}, y: {EX[c]} }}"}[active]
+            types.append(f"#[derive(Collect)]\n#[collect(no_drop)]\npub enum {tname}{params} {{ Unit, Tup({tyof(a, tname)}), Named {{ x: {tyof(b, tname)}, {req}y: {tyof(c, tname)} }} }}")
+            inner = f"{tname}::Unit"
+            val = {"Unit": f"{tname}::Unit", "Tup": f"{tname}::Tup({ex(a, inner)})",
+                   "Named": f"{tname}::Named {{ x: {ex(b, inner)}, y: {ex(c, inner)} }}"}[active]
             tyann = f"{tname}<'gc>" if lifetime else tname
             body, ref = [f"let v: {tyann} = {val};"], "&v"
         cfg = f'#[cfg(feature = "{feat}")]\n' if feat else ""
